@@ -129,6 +129,9 @@ class Ctx:
         self.work = os.path.join(wbase, "%s_%s_%d" % (pid, tier, os.getpid()))
         shutil.rmtree(self.work, ignore_errors=True)
         os.makedirs(self.work)
+        # every JVM started by this run (TLC, also from a check's own helper) keeps its scratch directory in the work dir, not /tmp
+        os.makedirs(os.path.join(self.work, "jt"), exist_ok=True)
+        os.environ["JAVA_TOOL_OPTIONS"] = (os.environ.get("JAVA_TOOL_OPTIONS", "") + " -Djava.io.tmpdir=" + os.path.join(self.work, "jt")).strip()
         self.ntlc = 0
         self.states = 0
         self.transitions = 0
